@@ -4,7 +4,7 @@ from pyvc import native
 
 def run(rep, tier, seed):
     sec = native.run('b_edit', 'main', {'props': ['C08'], 'tier': tier, 'seed': seed,
-                                        'ops': ['self', 'slice'], 'norm': False})
+                                        'ops': ['self', 'slice', 'accessors'], 'norm': False})
     sec['native_entry'] = ('b_edit', 'replay')
     rep.bounded(sec)
     rep.remainder = 'unbounded strings / programs: nothing is proved for C08'
